@@ -165,7 +165,7 @@ theorem residual_zero (g : Graph) (topo : List Node) (htopo : IsTopo g.edges top
   grind
 
 /-- the loop runs at most `nzCount + 1` times -/
-theorem peel_terminates (g : Graph) (hnd : g.edges.Nodup) (hne : g.edges ≠ []) (topo : List Node)
+theorem peel_terminates (g : Graph) (hnd : g.edges.Nodup) (topo : List Node)
     (htopo : IsTopo g.edges topo) (n : Nat) :
     ∀ (f : Edge → Rat) (acc : List (List Node × Rat)), (∀ e ∈ g.edges, 0 ≤ f e) → Conserving g f →
       nzCount g f < n → ∃ r, peelLoop g topo n f acc = .done r := by
@@ -180,10 +180,6 @@ theorem peel_terminates (g : Graph) (hnd : g.edges.Nodup) (hne : g.edges ≠ [])
     | path b p =>
       obtain ⟨_, _, h3, h4, h5⟩ := peel_step g hnd topo htopo f hnn hc b p hm
       exact ih _ _ h3 h4 (by omega)
-    | keyError =>
-      rw [hm] at hs
-      obtain ⟨p, hp⟩ := exists_stpath g topo htopo hne
-      exact absurd hp (hs p)
     | stuck => rw [hm] at hs; exact hs.elim
 
 end FP
@@ -220,15 +216,14 @@ theorem peel_keeps (g : Graph) (hnd : g.edges.Nodup) (topo : List Node) (htopo :
         · have : pw = (p, b) := by simpa using h''
           rw [this]; exact Or.inr hb
       · exact Or.inr h'
-    | keyError => rw [hm] at h; simp at h
     | stuck => rw [hm] at h; simp at h
 
-/-- **greedy peeling is exact.** On a DAG with at least one edge (distinct edges, `topo` a
-topological order) and a non-negative flow conserved at every inner node, the loop of
+/-- **greedy peeling is exact.** On a DAG (distinct edges, `topo` a topological order; a graph without
+edges included: no path is peeled) and a non-negative flow conserved at every inner node, the loop of
 `decompose_using_max_bottleneck` stops within `|E| + 1` rounds, the residual vanishes on every edge,
 every peeled path is a source-to-sink path of the graph with positive weight, and on every edge
 the weights of the paths through it add up to the flow. -/
-theorem decompose_exact (g : Graph) (hnd : g.edges.Nodup) (hne : g.edges ≠ []) (topo : List Node)
+theorem decompose_exact (g : Graph) (hnd : g.edges.Nodup) (topo : List Node)
     (htopo : IsTopo g.edges topo) (f : Edge → Rat) (hnn : ∀ e ∈ g.edges, 0 ≤ f e) (hc : Conserving g f) :
     ∃ r, decompose g f topo = .done r ∧ (∀ e ∈ g.edges, r.residual e = 0) ∧
       (∀ e ∈ g.edges, peeledSum r.paths e = f e) ∧ (∀ pw ∈ r.paths, IsSTPath g pw.1 ∧ 0 < pw.2) := by
@@ -236,7 +231,7 @@ theorem decompose_exact (g : Graph) (hnd : g.edges.Nodup) (hne : g.edges ≠ [])
     unfold nzCount
     have := List.length_filter_le (fun e => decide (f e ≠ 0)) g.edges
     omega
-  obtain ⟨r, hr⟩ := peel_terminates g hnd hne topo htopo _ f [] hnn hc hcount
+  obtain ⟨r, hr⟩ := peel_terminates g hnd topo htopo _ f [] hnn hc hcount
   have hr' : decompose g f topo = .done r := hr
   obtain ⟨d1, d2, d3⟩ := decompose_invariant g f topo htopo r hr'
   obtain ⟨k1, k2, k3⟩ := peel_keeps g hnd topo htopo _ f [] r hr hnn hc
@@ -252,29 +247,31 @@ theorem decompose_exact (g : Graph) (hnd : g.edges.Nodup) (hne : g.edges ≠ [])
     · simp at h
     · exact h
 
-/-- on a graph without edges the function fails: `max_bottleneck_path` looks up `B[None]`
-(this is finding C17-F1, mirrored by the model) -/
-theorem decompose_edgeless (g : Graph) (he : g.edges = []) (topo : List Node) (htopo : IsTopo g.edges topo)
-    (f : Edge → Rat) : ∃ r, decompose g f topo = r ∧ (match r with | .keyError => True | _ => False) := by
-  have nopath : ∀ p, ¬ IsSTPath g p := by
-    intro p hp
-    cases p with
-    | nil => have := hp.len; simp at this
-    | cons a p =>
-      cases p with
-      | nil => have := hp.len; simp at this
-      | cons b p =>
-        have := hp.walk (a, b) (by rw [walkEdges_cons_cons]; simp)
-        rw [he] at this; simp at this
-  have hs := maxBottleneckPath_spec g f topo htopo
+/-- in a graph without in-edges `maxBottleneckSink` stays `None` (whatever the order swept) -/
+theorem bTable_best_none (g : Graph) (f : Edge → Rat) (hp : ∀ v, g.pred v = []) (topo : List Node) :
+    ∀ st : BState, st.best = none → (topo.foldl (bstep g f) st).best = none := by
+  induction topo with
+  | nil => intro st h; exact h
+  | cons v topo ih =>
+    intro st h
+    rw [List.foldl_cons]
+    apply ih
+    unfold bstep
+    simp [hp v, h]
+
+/-- on a graph without edges `max_bottleneck_path` answers `(None, None)` at once and the loop
+returns no paths (before the repair of finding C17-F1 the code looked up `B[None]` here); no
+assumption on `topo` or `f` -/
+theorem decompose_edgeless (g : Graph) (he : g.edges = []) (topo : List Node) (f : Edge → Rat) :
+    maxBottleneckPath g f topo = .none ∧ decompose g f topo = .done { paths := [], residual := f } := by
+  have hp : ∀ v, g.pred v = [] := by intro v; simp [Graph.pred, he]
+  have hb : (bTable g f topo).best = none := bTable_best_none g f hp topo bInit rfl
+  have hm := mbp_noSink g f topo hb
+  refine ⟨hm, ?_⟩
   unfold decompose
   rw [he]
   simp only [List.length_nil, Nat.zero_add]
   unfold peelLoop
-  cases hm : maxBottleneckPath g f topo with
-  | none => rw [hm] at hs; obtain ⟨_, p, hp, _⟩ := hs; exact absurd hp (nopath p)
-  | path b p => rw [hm] at hs; exact absurd hs.2.1 (nopath p)
-  | keyError => exact ⟨_, rfl, trivial⟩
-  | stuck => rw [hm] at hs; exact hs.elim
+  rw [hm]
 
 end FP
